@@ -30,6 +30,7 @@ def canon(ans):
 CLASS_TO_FINDING = {
     "panic:ctrl-between-targets": "C13-ctrl-between-targets-panic",
     "panic:nested-loop": "C13-nested-loop-header-panic",
+    "panic:cond-more-than-64-bits": "C18-controls-gt-64-panic",
     "panic:subbit-out-of-range": "C13-composite-subbit-panic",
     "panic:empty-loop": "C13-zero-width-loop-panic",
     "span:barrier": "C13-barrier-span-not-reserved",
@@ -56,7 +57,7 @@ SPEC = {
     "props_module": PROPS_MODULE,
     "required": ["grid_rectangular", "connectors_in_grid_on_partner_partial", "undrawable_is_error", "emitter_templates_as_modelled",
                  "each_op_once_partial", "wire_order", "column_order", "connector_span_clear_partial",
-                 "printed_iff_drawn", "stage_is_expected_partial", "stages_are_expected_partial",
+                 "printed_iff_drawn", "stage_is_expected_partial", "stages_are_expected_partial", "latex_never_panics_partial",
                  "neg_ctrl_between_targets_panics", "neg_conditional_composite_overwrites", "neg_barrier_column_reused"],
     "drivers": ["drv_c13"],
     "harness_bin": "c13",
